@@ -103,7 +103,9 @@ class LazyRng(struct.PyTreeNode):
       return LazyRng(rng, suffix)
 
   def clear_suffix(self):
-    key = self.rng
+    # fold the suffix into the key before dropping it: scopes that differ only
+    # in their path must not be handed the same key.
+    key = self.as_jax_rng()
     return LazyRng(key, ())
 
 
